@@ -123,6 +123,11 @@ impl<'i, 's> LexWith<'i, &FilterParser<'s>> for QuantifierArgExpr {
     fn lex_with(input: &'i str, parser: &FilterParser<'s>) -> LexResult<'i, Self> {
         let (arg, rest) = FunctionCallArgExpr::lex_with(input, parser)?;
         let arg = match arg {
+            // There is no map-each application for quantifiers: a bare `field[*]`
+            // argument would hand the container itself to the reduction.
+            FunctionCallArgExpr::IndexExpr(index_expr) if index_expr.map_each_count() > 0 => {
+                return Err((LexErrorKind::InvalidMapEachAccess, span(input, rest)));
+            }
             FunctionCallArgExpr::IndexExpr(index_expr) => Self::IndexExpr(index_expr),
             FunctionCallArgExpr::Logical(logical_expr) => Self::Logical(logical_expr),
             FunctionCallArgExpr::Literal(literal) => {
